@@ -96,6 +96,9 @@ func c10(c *ctx) {
 		{"release+stop", []string{"release-nowait", "stop"}, false, 600},
 		{"release", []string{"release"}, false, 600},
 		{"timeout", []string{"timeout"}, false, 1},
+		// the peer is silent past the read timeout and speaks again while its sessions are being removed (slow datapath): what
+		// the dying association still accepts must be removed with it
+		{"timeout-late-request", []string{"timeout-late"}, false, 1},
 		{"hbdead", []string{"hbdead"}, true, 600},
 		{"timeout+hbdead", []string{"timeout+hbdead"}, true, 1},
 		{"hbdead+stop", []string{"hbdead-nowait", "stop"}, true, 600},
@@ -254,6 +257,60 @@ func c10(c *ctx) {
 						w.quiesce()
 					case "timeout":
 						time.Sleep(1400 * time.Millisecond)
+						w.quiesce()
+					case "timeout-late":
+						p := w.peers[0]
+						for k := 0; k < 2; k++ { // the teardown has something to delete
+							pdrs, fars, qers := w.genSession(0)
+							w.nextCP++
+							if h, _ := w.est(0, w.nodes[0], w.nextCP, pdrs, fars, qers, "c10-late"); h != nil {
+								seids[0] = append(seids[0], h.up)
+							}
+						}
+						fired := make(chan struct{}, 1)
+						w.s.Bess.SetOnCmd(func(n int, module, cmd string) bool {
+							if cmd == "delete" {
+								select {
+								case fired <- struct{}{}:
+								default:
+								}
+								time.Sleep(25 * time.Millisecond) // a slow datapath: the teardown takes a while
+							}
+							return true
+						})
+						select {
+						case <-fired:
+							// the teardown after the read timeout has begun: the peer speaks again
+							pdrs, fars, qers := w.genSession(0)
+							ies := []*ie.IE{ie.NewNodeID(w.nodes[0], "", ""), ie.NewFSEID(99998, p.IP, nil)}
+							for _, x := range pdrs {
+								ies = append(ies, x.Create())
+							}
+							for _, x := range fars {
+								ies = append(ies, x.Create())
+							}
+							for _, x := range qers {
+								ies = append(ies, x.Create())
+							}
+							seq := p.NextSeq()
+							_ = p.SendRaw(sysh.Marshal(message.NewSessionEstablishmentRequest(0, 0, 0, seq, 0, ies...)))
+							deadline := time.Now().Add(900 * time.Millisecond)
+							for time.Now().Before(deadline) {
+								rr, ok := p.Recv(time.Until(deadline))
+								if !ok {
+									break
+								}
+								o := sysh.Obs{Markers: [][]uint64{}}
+								o.Decode([][]byte{rr}, seq)
+								if o.Type == message.MsgTypeSessionEstablishmentResponse && o.Cause == 1 && o.Up != 0 {
+									seids[0] = append(seids[0], o.Up) // accepted by the dying association: it must be removed as well
+									break
+								}
+							}
+						case <-time.After(3 * time.Second):
+						}
+						time.Sleep(600 * time.Millisecond)
+						w.s.Bess.SetOnCmd(nil)
 						w.quiesce()
 					case "hbdead":
 						w.peers[0].AnswerHB = false
